@@ -228,10 +228,15 @@ struct SetListML : IMap {
     }
     bool extract( long k, long& v ) override
     {
+        // containers over LazyList<RCU>: extract must be called under the RCU read lock (documented); the returned pointer
+        // is released (= retired) outside of it.  lockfn is set for exactly those variants.
+        if ( lockfn ) lockfn();
         auto p = g_use_with ? l.extract_with( kv( k, 0 ), key_less()) : l.extract( kv( k, 0 ));
-        if ( !p ) return false;
-        v = p->val;
-        return true;
+        bool ok = bool( p );
+        if ( ok ) v = p->val;
+        if ( unlockfn ) unlockfn();
+        p.release();
+        return ok;
     }
     bool find( long k, long& v ) override
     {
